@@ -121,6 +121,12 @@ def run_impl(case):
             else:
                 getattr(L, rel)(raw % n)
         out = {'concepts': base.concept_list(L)}
+        # the diagram graph is exported with the caches as the warm-up left them (partly filled on
+        # the lazily ordered build paths), BEFORE anything fills the whole relation
+        nx_dir = case.get('nx_dir', 0)
+        G = L.to_networkx(['down', 'up', None][nx_dir])
+        out['nx_nodes'] = sorted(int(v) for v in G.nodes)
+        out['nx_adj'] = [sorted(int(v) for v in (G.neighbors(i) if i in G else [])) for i in range(n)]
         nei, nii, ne, ni, label_ok = read_labels(L, r, case.get('label_order', 'mixed'))
         anc = [canon(L.ancestors(i)) for i in range(n)]
         desc = [canon(L.descendants(i)) for i in range(n)]
@@ -138,6 +144,13 @@ def run_impl(case):
                        lambda a, b: a == b or a in desc[b],
                        lambda a, b: leq[a][b],
                        lambda a, b: cle[a][b]]
+            if nx_dir in (0, 1):    # ... and by walking the lines of the exported diagram
+                import networkx as nx
+                reach = {i: (nx.descendants(G, i) if i in G else set()) for i in range(n)}
+                if nx_dir == 0:
+                    oracles.append(lambda a, b: a == b or a in reach[b])
+                else:
+                    oracles.append(lambda a, b: a == b or b in reach[a])
             out['rebuilt'] = [[[bool(below(ohome[g][0], ahome[m][0])) for m in range(w)] for g in range(h)]
                               for below in oracles]
         else:
@@ -151,20 +164,20 @@ def to_coq(case, out):
     algo = base.build_code({'algo': case['algo'], 'build': case.get('build', 'ctx'), 'ops': case.get('history')})
     on, an = coq(case['onames']), coq(case['anames'])
     if out[0] != 'ok':
-        return 'Build_c04_case %s %d %d [] %s %s [] [] [] [] [] [] [] [] [] false' % (
+        return 'Build_c04_case %s %d %d [] %s %s [] [] [] [] [] [] [] [] [] 0 [] [] false' % (
             t, algo, ERR_KINDS.get(out[1], 11), on, an)
     o = out[1]
-    return 'Build_c04_case %s %d 0 %s %s %s %s %s %s %s %s %s %s %s %s %s' % (
+    return 'Build_c04_case %s %d 0 %s %s %s %s %s %s %s %s %s %s %s %s %d %s %s %s' % (
         t, algo, base.concepts_term(o['concepts']), on, an, coq(o['nei']), coq(o['nii']),
         coq(o['ne']), coq(o['ni']), coq(o['anc']), coq(o['desc']), coq(o['leq']), coq(o['cle']),
-        coq(o['rebuilt']), coq(bool(o['label_ok'])))
+        coq(o['rebuilt']), case.get('nx_dir', 0), coq(o['nx_nodes']), coq(o['nx_adj']), coq(bool(o['label_ok'])))
 
 
 WARM = list(base.REL) + ['children_top', 'parents_bottom']
 
 
 def random_warm(rng):
-    return [[rng.choice(WARM), rng.randrange(1000)] for _ in range(rng.choice([0, 0, 1, 1, 2, 3]))]
+    return [[rng.choice(WARM), rng.randrange(1000)] for _ in range(rng.choice([0, 1, 1, 2, 2, 3]))]
 
 
 def random_history(rng):
@@ -190,7 +203,7 @@ def _mk(rng, t, backend, algo, kind='', build=None, history=None):
     return {'table': t, 'backend': backend, 'algo': algo, 'qseed': rng.randrange(10 ** 6), 'kind': kind,
             'onames': rng.sample(range(60), h), 'anames': rng.sample(range(60), w),
             'build': build, 'bseed': rng.randrange(10 ** 6), 'gseed': rng.choice(base.GSEEDS),
-            'warm': random_warm(rng),
+            'warm': random_warm(rng), 'nx_dir': rng.choice([0, 0, 1, 2]),
             'label_order': rng.choice(LABEL_ORDERS), 'history': history or []}
 
 
@@ -208,7 +221,7 @@ def generate(rng, tier):
     else:
         for t in rng.sample(small, 150):
             cases.append(_mk(rng, t, rng.choice(BACKENDS), rng.choice(ALGOS), 'exhaustive'))
-        n_rand, n_hist = 600, 160
+        n_rand, n_hist = 500, 140
     # the history stream: labels -> remove -> (labels) -> add back -> labels -> rebuild
     shapes = list(base.NONGRADED) + [(t, k) for t, k in base.forced_tables() if k in ('duprow', 'dupcol', 'contranominal')]
     for t, kind in shapes:
